@@ -22,6 +22,7 @@ CONSTANTS
   CHAIN = FALSE
   WILD = FALSE
   FIXMODEL = "intended"
+  ANYRATIO = FALSE
   BASEMOD = 2
   EMIT = FALSE
 INVARIANT InvShape
